@@ -730,9 +730,13 @@ class Unit:
         >>> unit
         100*m
         """
-        expr = self.expr
-        self.expr = _cancel_mul(expr, self.registry)
-        return self
+        return Unit(
+            _cancel_mul(self.expr, self.registry),
+            base_value=self.base_value,
+            base_offset=self.base_offset,
+            dimensions=self.dimensions,
+            registry=self.registry,
+        )
 
 
 def _factor_pairs(expr):
